@@ -5,7 +5,7 @@
 (* E57Format as judge of the bytes the real writer produced.               *)
 (* Tags: P:Cxx:... property-tier predicate of property Cxx; S:... strict.  *)
 (***************************************************************************)
-EXTENDS E57Meta, TraceBase, QueueLayer
+EXTENDS E57Meta, TraceBase, QueueLayer, PacketLayer
 
 \* the queue reader driven directly (q_* events): its model state, the packets and streams of the section it reads
 VARIABLE qs
@@ -28,7 +28,7 @@ T_Panic == /\ l <= Len(Rec) /\ "res" \in DOMAIN E /\ Panicked /\ l' = l + 1
 T_Reset == IsEv("reset") /\ sc' = EmptyScene /\ file' = [img |-> <<>>, L |-> <<>>, xml |-> <<>>] /\ res' = Ok(0)
 
 \* a scene encoded by the independent encoder (no writer calls): the file that follows must read back as it
-SceneOf(s) == [EmptyScene EXCEPT !.guid = s.guid, !.fin = TRUE,
+SceneOf(s) == [EmptyScene EXCEPT !.guid = s.guid, !.fin = TRUE, !.foreign = TRUE,
                !.pcs = [i \in 1..Len(s.pcs) |-> [open |-> FALSE, guid |-> s.pcs[i].guid, proto |-> s.pcs[i].proto,
                                                  pts |-> s.pcs[i].pts, reals |-> <<>>, meta |-> <<>>]]]
 T_Scene == IsEv("s_scene") /\ sc' = SceneOf(E.scene) /\ UNCHANGED <<file, res>>
@@ -101,6 +101,13 @@ T_BigReadback == /\ IsEv("big_readback") /\ NoPanic
                  /\ UNCHANGED <<sc, file, res>>
 
 \* ------------------------------------------------------------------ the finalized file (C02, C01, C06)
+RECURSIVE PacketListOf(_, _, _, _)
+PacketListOf(L, pos, secEnd, nrec) ==
+    IF pos + 4 > secEnd THEN <<>>
+    ELSE LET plen == U16(L, pos + 2) + 1
+         IN <<IF L[pos + 1] = 1 THEN [t |-> "data", sizes |-> U16Seq(L, pos + 6, nrec)]
+              ELSE IF L[pos + 1] = 0 THEN [t |-> "index"] ELSE [t |-> "ignored"]>>
+            \o PacketListOf(L, pos + plen, secEnd, nrec)
 PcOk(img, L, pcnode, pc, i) ==
     /\ ChkP(PcNodeShapeOk(pcnode), {"C02"}, "data3D-entry-shape")
     /\ ChkP(XCount(pcnode) = NatToL64(Len(pc.pts)), {"C01"}, "record-count")
@@ -110,6 +117,13 @@ PcOk(img, L, pcnode, pc, i) ==
               /\ ChkP(cv.ok, {"C02"}, "compressed-vector-section:" \o cv.why)
               /\ cv.ok => \A j \in 1..Len(xp) :
                             ChkP(StreamEncodes(xp[j], cv.streams[j], pc.pts, j), {"C01", "C12"}, "stream-does-not-encode-the-points")
+              \* strict tier (never rejects): the crate's writer cuts the points into packets as PacketWriterSpec says
+              /\ (cv.ok /\ ~sc.foreign /\ xp = pc.proto) =>
+                    LET lp == Phys2Log(XOffset(pcnode))
+                        pl == PacketListOf(L, Phys2Log(U64Small(L, lp + 16)), lp + U64Small(L, lp + 8), Len(xp))
+                    IN Soft(pl = PTup(LAMBDA k : [t |-> "data", sizes |-> PPackets(PTup(LAMBDA j : Width(xp[j]), 1, Len(xp)), Len(pc.pts), 65535, 500, 6)[k]],
+                                      1, Len(PPackets(PTup(LAMBDA j : Width(xp[j]), 1, Len(xp)), Len(pc.pts), 65535, 500, 6))),
+                            "S:packetisation-differs-from-PacketWriterSpec")
 
 BlobOk(img, L, off, len, data, tag) ==
     \E b \in {BlobAt(img, L, off, len)} :
@@ -320,13 +334,7 @@ T_RXml == /\ IsEv("r_xml") /\ RNoPanic
 \* (refill only when empty like the iterators, all packets first, random mixtures) and records the number of complete
 \* points available after every step.  The packets and their stream sizes are taken from the file by the independent
 \* decoder; QueueLayer says what the queues must hold after each packet; values are the next ones of their streams.
-RECURSIVE PacketList(_, _, _, _)
-PacketList(L, pos, secEnd, nrec) ==
-    IF pos + 4 > secEnd THEN <<>>
-    ELSE LET plen == U16(L, pos + 2) + 1
-         IN <<IF L[pos + 1] = 1 THEN [t |-> "data", sizes |-> U16Seq(L, pos + 6, nrec)]
-              ELSE IF L[pos + 1] = 0 THEN [t |-> "index"] ELSE [t |-> "ignored"]>>
-            \o PacketList(L, pos + plen, secEnd, nrec)
+PacketList(L, pos, secEnd, nrec) == PacketListOf(L, pos, secEnd, nrec)
 QWidths(xp) == QTup(LAMBDA i : Width(xp[i]), 1, Len(xp))
 QUnch == UNCHANGED <<sc, file, res>>
 T_QNew ==
